@@ -51,7 +51,7 @@ func checkC14(c *Ctx) error {
 	if err != nil {
 		return err
 	}
-	n := c.Pick(500, 16000)
+	n := c.Pick(500, 8000)
 	var units, stubs []*probe.Unit
 	for i := 0; i < n; i++ {
 		r := rand.New(rand.NewSource(c.Seed*1000003 + int64(i)))
